@@ -83,11 +83,12 @@ func (t *Term) IsFalse() bool { return t.Op == OpConst && t.Sort.Bool && t.Val =
 
 // TermTable hash-conses terms. One per worker.
 type TermTable struct {
-	tab   map[string]*Term
+	tab   map[termKey]*Term
 	terms []*Term
 	Vars  []*Term
 	UFs   map[string]*Term // name -> sample application (for declaration)
 	small [256]*Term
+	small64 [1024]*Term
 	tt    *Term
 	ff    *Term
 	varsCache  map[int]varsEntry
@@ -95,7 +96,7 @@ type TermTable struct {
 }
 
 func NewTermTable() *TermTable {
-	tb := &TermTable{tab: map[string]*Term{}, UFs: map[string]*Term{}, varsCache: map[int]varsEntry{}, truthCache: map[int]bitset{}}
+	tb := &TermTable{tab: map[termKey]*Term{}, UFs: map[string]*Term{}, varsCache: map[int]varsEntry{}, truthCache: map[int]bitset{}}
 	tb.tt = tb.intern(&Term{Op: OpConst, Sort: BoolSort, Val: 1})
 	tb.ff = tb.intern(&Term{Op: OpConst, Sort: BoolSort, Val: 0})
 	for i := range tb.small {
@@ -104,24 +105,52 @@ func NewTermTable() *TermTable {
 	return tb
 }
 
-func (tb *TermTable) key(t *Term) string {
-	var sb strings.Builder
-	fmt.Fprintf(&sb, "%d|%v|%d|%d|%d|%d|%s", t.Op, t.Sort.Bool, t.Sort.W, t.Val, t.A, t.B, t.Name)
-	for _, a := range t.Args {
-		fmt.Fprintf(&sb, "|%d", a.ID)
-	}
-	return sb.String()
+type termKey struct {
+	op         Op
+	isBool     bool
+	w          int
+	val        uint64
+	a, b       int
+	name       string
+	n          int
+	a0, a1, a2 int
 }
 
 func (tb *TermTable) intern(t *Term) *Term {
-	k := tb.key(t)
+	return tb.mk(t.Op, t.Sort, t.Val, t.A, t.B, t.Name, t.Args...)
+}
+
+// mk hash-conses a term; it allocates only when the term is new.
+func (tb *TermTable) mk(op Op, sort Sort, val uint64, a, b int, name string, args ...*Term) *Term {
+	k := termKey{op: op, isBool: sort.Bool, w: sort.W, val: val, a: a, b: b, name: name, n: len(args), a0: -1, a1: -1, a2: -1}
+	switch len(args) {
+	case 0:
+	case 1:
+		k.a0 = args[0].ID
+	case 2:
+		k.a0, k.a1 = args[0].ID, args[1].ID
+	case 3:
+		k.a0, k.a1, k.a2 = args[0].ID, args[1].ID, args[2].ID
+	default:
+		var sb strings.Builder
+		sb.WriteString(name)
+		for _, x := range args {
+			fmt.Fprintf(&sb, "|%d", x.ID)
+		}
+		k.name = sb.String()
+	}
 	if x, ok := tb.tab[k]; ok {
 		return x
+	}
+	t := &Term{Op: op, Sort: sort, Val: val, A: a, B: b, Name: name}
+	if len(args) > 0 {
+		t.Args = make([]*Term, len(args))
+		copy(t.Args, args)
 	}
 	t.ID = len(tb.terms)
 	tb.terms = append(tb.terms, t)
 	tb.tab[k] = t
-	if t.Op == OpVar {
+	if op == OpVar {
 		tb.Vars = append(tb.Vars, t)
 	}
 	return t
@@ -156,7 +185,15 @@ func (tb *TermTable) Const(w int, v uint64) *Term {
 	if w == 8 {
 		return tb.small[v]
 	}
-	return tb.intern(&Term{Op: OpConst, Sort: BV(w), Val: v})
+	if w == 64 && v < 1024 {
+		if t := tb.small64[v]; t != nil {
+			return t
+		}
+		t := tb.mk(OpConst, BV(64), v, 0, 0, "")
+		tb.small64[v] = t
+		return t
+	}
+	return tb.mk(OpConst, BV(w), v, 0, 0, "")
 }
 
 func (tb *TermTable) Var(name string, s Sort) *Term {
@@ -178,7 +215,7 @@ func (tb *TermTable) Not(a *Term) *Term {
 	if a.Op == OpNot {
 		return a.Args[0]
 	}
-	return tb.intern(&Term{Op: OpNot, Sort: BoolSort, Args: []*Term{a}})
+	return tb.mk(OpNot, BoolSort, 0, 0, 0, "", a)
 }
 
 func (tb *TermTable) And(a, b *Term) *Term {
@@ -200,7 +237,7 @@ func (tb *TermTable) And(a, b *Term) *Term {
 	if a.ID > b.ID {
 		a, b = b, a
 	}
-	return tb.intern(&Term{Op: OpAnd, Sort: BoolSort, Args: []*Term{a, b}})
+	return tb.mk(OpAnd, BoolSort, 0, 0, 0, "", a, b)
 }
 
 func (tb *TermTable) Or(a, b *Term) *Term {
@@ -222,7 +259,7 @@ func (tb *TermTable) Or(a, b *Term) *Term {
 	if a.ID > b.ID {
 		a, b = b, a
 	}
-	return tb.intern(&Term{Op: OpOr, Sort: BoolSort, Args: []*Term{a, b}})
+	return tb.mk(OpOr, BoolSort, 0, 0, 0, "", a, b)
 }
 
 func (tb *TermTable) Implies(a, b *Term) *Term { return tb.Or(tb.Not(a), b) }
@@ -248,7 +285,7 @@ func (tb *TermTable) Ite(c, a, b *Term) *Term {
 	if c.Op == OpNot {
 		return tb.Ite(c.Args[0], b, a)
 	}
-	return tb.intern(&Term{Op: OpIte, Sort: a.Sort, Args: []*Term{c, a, b}})
+	return tb.mk(OpIte, a.Sort, 0, 0, 0, "", c, a, b)
 }
 
 func (tb *TermTable) Eq(a, b *Term) *Term {
@@ -296,7 +333,7 @@ func (tb *TermTable) Eq(a, b *Term) *Term {
 	if a.ID > b.ID {
 		a, b = b, a
 	}
-	return tb.intern(&Term{Op: OpEq, Sort: BoolSort, Args: []*Term{a, b}})
+	return tb.mk(OpEq, BoolSort, 0, 0, 0, "", a, b)
 }
 
 func foldBin(op Op, w int, x, y uint64) (uint64, bool) {
@@ -502,7 +539,7 @@ func (tb *TermTable) Bin(op Op, a, b *Term) *Term {
 			return tb.Bin(OpBAnd, a, tb.Const(w, b.Val-1))
 		}
 	}
-	return tb.intern(&Term{Op: op, Sort: a.Sort, Args: []*Term{a, b}})
+	return tb.mk(op, a.Sort, 0, 0, 0, "", a, b)
 }
 
 func (tb *TermTable) Cmp(op Op, a, b *Term) *Term {
@@ -542,7 +579,7 @@ func (tb *TermTable) Cmp(op Op, a, b *Term) *Term {
 			}
 		}
 	}
-	return tb.intern(&Term{Op: op, Sort: BoolSort, Args: []*Term{a, b}})
+	return tb.mk(op, BoolSort, 0, 0, 0, "", a, b)
 }
 
 // urange gives a cheap unsigned range of a term.
